@@ -173,6 +173,9 @@ pub fn sanitize_with_config<R: Read + Skip>(mut input: R, config: Config) -> Res
         ExtraUnparsedInput,
     );
 
+    // A seek-based `skip` past the end of the input succeeds; make sure the last chunk did not extend past the end.
+    file_reader.ensure_within_input()?;
+
     Ok(())
 }
 
